@@ -294,6 +294,15 @@ func checkMulti(idx int, mc multiCase, mode, buf int) {
 	// the sources are handed over as a caller-owned slice (spread); the caller keeps using its slice:
 	// either it overwrites every element right away (the stream must not notice), or it looks at it
 	// after the stream has been consumed and closed (it must be untouched)
+	// sometimes the tail of the sources is itself a MultiReaderCloser built by the caller, who also closes
+	// it (defer inner.Close()) after the outer stream has been consumed and closed
+	var inner *streams.MultiReaderCloser
+	if len(readers) >= 2 && (idx+mode)%4 == 1 {
+		k := 1 + (idx+buf)%(len(readers)-1)
+		inner = streams.NewMultiReaderCloser(append([]io.Reader(nil), readers[k:]...)...)
+		readers = append(append([]io.Reader(nil), readers[:k]...), inner)
+		rec.Count("multi.nested_stream_as_last_source", 1)
+	}
 	given := make([]io.Reader, len(readers), len(readers)+2)
 	copy(given, readers)
 	mr := streams.NewMultiReaderCloser(given...)
@@ -344,6 +353,9 @@ func checkMulti(idx int, mc multiCase, mode, buf int) {
 	}
 	mr.Close()
 	mr.Close()
+	if inner != nil {
+		inner.Close()
+	}
 	for i, s := range srcs {
 		if mc.closable[i] && s.closes != 1 {
 			rec.Violation(idx, fmt.Sprintf("multi/close-count/%s/closed=%d", modeName(mode), min(s.closes, 2)),
@@ -526,7 +538,7 @@ func TestCheck(t *testing.T) {
 	rec = mon.Open("C16")
 	defer rec.Close()
 	rec.Note("rule", "LimitReadCloser: every limit N in 0..16 x source length 0..N+3 x every composition of the source into read chunks (all compositions for lengths up to the tier's bound, seeded compositions above; see exhaustive_lengths) x EOF-with-last-data/EOF-alone x zero-length reads (none/before first/between/before EOF) x injected source error at every chunk position (with and without data) x consumer = Read loop with every buffer size 1..N+2, io.ReadAll, io.Copy. MultiReaderCloser: 1-4 scripted sources (closable/plain, one possibly failing) x the same consumers (io.Copy takes WriteTo). TeeReadCloser: every composition x closable/plain source and writer x writer failing at every offset. A case is one (component, parameters, script, consumer) tuple; tuples are enumerated without repetition, so distinct = evaluated; non-trivial = the source has at least one byte or a terminal error other than a bare EOF. Larger seeded streams (up to 200 KiB) on top.")
-	rec.Note("require", []string{"limit.oversize_rejected", "limit.within_limit", "multi.ok.Read", "multi.ok.io.Copy", "multi.ok.ReadAll", "multi.caller_slice_overwritten_after_construction", "multi.caller_slice_intact_checked", "multi.source_that_copies_another_stream_while_read", "tee.ok", "tee.writer_failure_checked", "limit.eof_with_n_plus_1th_byte"})
+	rec.Note("require", []string{"limit.oversize_rejected", "limit.within_limit", "multi.ok.Read", "multi.ok.io.Copy", "multi.ok.ReadAll", "multi.caller_slice_overwritten_after_construction", "multi.caller_slice_intact_checked", "multi.source_that_copies_another_stream_while_read", "multi.nested_stream_as_last_source", "tee.ok", "tee.writer_failure_checked", "limit.eof_with_n_plus_1th_byte"})
 	rec.Note("exhaustive_lengths", fmt.Sprintf("all compositions for source lengths 0..%d at every N (LimitReadCloser), 0..%d (TeeReadCloser)", mon.Pick(9, 15), mon.Pick(7, 11)))
 	gs := plan()
 	rec.Planned(len(gs))
